@@ -58,8 +58,10 @@ def run(chk, args):
         sub = os.path.join(wd, "tlc_" + kind)
         os.makedirs(sub)
         fixed = kind == "repaired"
-        r = vlib.run_tlc("Corruption", "c.cfg", workdir=sub, workers=2, timeout=900,
-                         files=[("c.cfg", cfg_text("", seed, cfgs, 2, fixed, "TypeOK DetectedOrInvisible"))])
+        # quick tier: the two-alteration machine runs on the two richest configurations only
+        mcfgs = cfgs if thorough else ["v1/plain/multi", "v1/comp/single"]
+        r = vlib.run_tlc("Corruption", "c.cfg", workdir=sub, workers=2, timeout=1500,
+                         files=[("c.cfg", cfg_text("", seed, mcfgs, 2, fixed, "TypeOK DetectedOrInvisible"))])
         return (kind, None, None, r)
 
     jobs = [lambda i=i: matrix_part(i) for i in range(len(cfgs))] + [lambda: machine("as-read"), lambda: machine("repaired")]
@@ -113,6 +115,10 @@ def run(chk, args):
     ddir = os.path.join(wd, "d")
     os.makedirs(ddir)
     hargs = ["-cases", mpath, "-seed", str(seed), "-dir", ddir, "-tier", chk.tier, "-workers", "8"]
+    if not thorough:
+        # quick tier: time box per store class; the alterations are executed in a stratified order (round-robin over
+        # the (field, class) cells), so a prefix still covers every cell; what was not executed is counted
+        hargs += ["-budget", os.environ.get("VERIF_C09_BUDGET", "40")]
     selftest = os.environ.get("VERIF_SELFTEST")
     if selftest:
         hargs += ["-selftest", "ReadTx", "-only", "plain-v1", "-limit", "40"]
